@@ -14,5 +14,6 @@ for prop in ${props//,/ }; do
   grep -E "^(VIOLATION|HARNESS-ERROR|violation detail)" /tmp/try_mutant.$prop.out | cut -c1-300 | head -6
   [ $rc -gt $worst ] && worst=$rc
 done
-git -C /repo checkout -- . ; git -C /repo clean -fdq -- . 2>/dev/null; ./check build >/dev/null 2>&1
+git -C /repo checkout -- . ; git -C /repo clean -fdq -- . 2>/dev/null
+[ -n "${NO_REBUILD:-}" ] || ./check build >/dev/null 2>&1
 exit $worst
